@@ -252,10 +252,11 @@ func (c *pathParser) addSeg(segString []byte) error {
 			return errParamMismatch(op)
 		}
 		if c.inPath {
+			// a drawing command following a closepath starts a new sub-path
+			// at the same initial point, which may be closed again
 			c.close()
 			c.currentX = c.pathStartX
 			c.currentY = c.pathStartY
-			c.inPath = false
 		}
 	case 'm':
 		rel = true
